@@ -41,43 +41,6 @@ for name, g in jitcmp.GENERATORS.items():
                                "degenerate": sum(v for k, v in sizes.items() if "0" in k.replace("-1", "") or "1" in k.replace("-1", "")), "sample": res[0]["model_line"] if res else ""}
 
 if do_public:
-    warnings.simplefilter("ignore")
-    import numpy as np
-    import pynapple as nap
-    E = np.array([])
-    ep = nap.IntervalSet([0.0, 10.0], [5.0, 15.0])
-    ep_before = nap.IntervalSet(0.0, 1.0)
-    empty_ep = nap.IntervalSet([], [])
-    ts = nap.Ts(np.array([2.0, 3.0, 12.0]))
-    tse = nap.Ts(E)
-    tsd = nap.Tsd(np.array([2.0, 3.0, 12.0]), np.array([1.0, 2.0, 3.0]))
-    tsde = nap.Tsd(E, E)
-    one = nap.Ts(np.array([3.0]))
-    oned = nap.Tsd(np.array([3.0]), np.array([1.0]))
-    calls = {
-        "empty.restrict(ep)": lambda: tse.restrict(ep), "ts.restrict(empty_ep)": lambda: ts.restrict(empty_ep), "ts.restrict(ep before data)": lambda: nap.Ts(np.array([20.0, 30.0])).restrict(ep_before),
-        "empty.count(1.0, ep)": lambda: tse.count(1.0, ep), "ts.count(1.0, empty_ep)": lambda: ts.count(1.0, empty_ep), "ts.count(ep=empty_ep)": lambda: ts.count(ep=empty_ep),
-        "emptytsd.bin_average(1.0, ep)": lambda: tsde.bin_average(1.0, ep), "ts.value_from(emptytsd, ep)": lambda: ts.value_from(tsde, ep), "empty.value_from(tsd, ep)": lambda: tse.value_from(tsd, ep),
-        "ts.value_from(one-sample, before)": lambda: nap.Ts(np.array([0.0])).value_from(nap.Tsd(np.array([1.0, 1.0]), np.array([5.0, 6.0]))[0:1], nap.IntervalSet(0.0, 1.0), mode="before"),
-        "TsGroup with an empty member": lambda: nap.TsGroup({0: ts, 1: tse, 2: ts}), "single-sample slice": lambda: one[0:1], "emptytsd.threshold": lambda: tsde.threshold(0.5),
-        "one-sample tsd.threshold": lambda: oned.threshold(0.5), "zero-span tsd.threshold": lambda: nap.Tsd(np.array([3.0, 3.0]), np.array([1.0, 0.0])).threshold(0.5),
-        "tsd.threshold multi-epoch": lambda: nap.Tsd(np.array([2.0, 12.0]), np.array([0.0, 1.0]), time_support=ep).threshold(0.5), "ep.in_interval(empty)": lambda: ep.in_interval(tse),
-        "empty_ep.in_interval(ts)": lambda: empty_ep.in_interval(ts), "one-sample dropna": lambda: nap.Tsd(np.array([3.0, 4.0]), np.array([np.nan, 1.0])).dropna(),
-        "IntervalSet(empty)": lambda: nap.IntervalSet(E, E), "ep.union(empty)": lambda: ep.union(empty_ep), "empty.intersect(ep)": lambda: empty_ep.intersect(ep), "empty.set_diff(ep)": lambda: empty_ep.set_diff(ep),
-        "ep.set_diff(ep)": lambda: ep.set_diff(ep), "crosscorr with empty target": lambda: nap.compute_crosscorrelogram(nap.TsGroup({0: ts, 1: tse}, time_support=nap.IntervalSet(0.0, 20.0)), 1.0, 3.0),
-        "perievent_continuous one sample": lambda: nap.compute_perievent_continuous(nap.Tsd(np.array([0.0, 1.0]), np.array([1.0, 2.0])), nap.Ts(np.array([0.5])), 1.0),
-        "perievent_continuous no event": lambda: nap.compute_perievent_continuous(nap.Tsd(np.arange(5.0), np.arange(5.0)), nap.Ts(np.array([50.0])), 1.0, ep=nap.IntervalSet(0.0, 4.0)),
-        # IEEE-only: a step lost to rounding at large |t| (exact rationals advance; doubles did not: fixed in d86eb2b)
-        "mean_psd step absorbed by rounding": lambda: nap.compute_mean_power_spectral_density(nap.Tsd(1.7e9 + np.arange(0, 1, 0.001), np.arange(1000.0)), 1e-7),
-        "_overlap_split step shrunk by rounding": lambda: __import__("pynapple.process.spectrum", fromlist=["x"])._overlap_split(np.array([1.7e9]), np.array([1.7e9 + 0.01]), 3.3e-7, 0.0),
-        "mean_psd short": lambda: nap.compute_mean_power_spectral_density(nap.Tsd(np.arange(0, 2, 0.01), np.arange(200.0)), 0.5),
-    }
-    for label, f in calls.items():
-        try:
-            f()
-            report["public"].append({"call": label, "outcome": "ok"})
-        except IndexError as ex:
-            report["public"].append({"call": label, "outcome": "IndexError", "msg": str(ex)[:200]})
-        except Exception as ex:
-            report["public"].append({"call": label, "outcome": "raised " + type(ex).__name__, "msg": str(ex)[:120]})
+    import c15_public  # noqa: E402
+    report["public"] = c15_public.run_calls(string_probes=False)
 json.dump(report, open(out_path, "w"), indent=1, default=str)
